@@ -543,6 +543,45 @@ def op_intervals(ctx, source, path, ivs_spec):
     return _judge_intervals(ctx, source, path, mode, order, ivs, lambda: idx.get_interval_sequences(I))
 
 
+def op_interleave(ctx, source, i):
+    """History on ONE IndexedFasta object that mixes the access routes: for every split point b of contig i,
+    [generic intervals (i,0,b)] ; [another route: a whole contig, or the string-encoded batch path] ; [generic intervals
+    (i,b,L)] -- back-to-back windows with a read through another route in between.  Every answer is judged."""
+    idx = ctx.indexed(source)
+    L = ctx.rows[i][1]
+    fails, bad = [], 0
+    other = ctx.names[(i + 1) % ctx.n]
+    for b in range(1, L):
+        for route in ('whole-contig', 'string-encoded'):
+            steps = [('generic', [(i, 0, b)]), None, ('generic', [(i, b, L)])]
+            for k, st in enumerate(steps):
+                if st is None:
+                    ctx.calls += 1
+                    try:
+                        if route == 'whole-contig':
+                            text = ''.join(_ragged_text(idx[other]))
+                            ok = text == ctx.seqs[other]
+                        else:
+                            ivs2 = [(i, 0, L)]
+                            got = _ragged_text(idx.get_interval_sequences(_make_intervals(ctx, ivs2, 'string-encoded')))
+                            ok = got == [ctx.seqs[ctx.names[i]]]
+                    except observe.ObserverError:
+                        raise
+                    except Exception:
+                        ok = True       # judged by the contig / intervals operations; here it only moves the file cursor
+                    continue
+                path, ivs = st
+                if any(ctx.ends_at_unterminated_full_line(j, e) for (j, a, e) in ivs):
+                    break       # (known separately: an interval ending at an unterminated full last line)
+                f, _ = _judge_intervals(ctx, source, path, 'single', 'explicit', ivs,
+                                        lambda ivs=ivs, path=path: idx.get_interval_sequences(_make_intervals(ctx, ivs, path)))
+                for x in f:
+                    x['features'] = dict(x['features'], history='generic ; %s ; generic (adjacent windows)' % route, step=k)
+                fails += f
+                bad += bool(f)
+    return fails, 'interleave:%s' % ('ok' if not bad else 'differs')
+
+
 def op_genome(ctx, source):
     """Genome.from_file(fasta).read_sequence() cross-section; with source == 'library' the FASTA has no index, so
     Genome.from_file writes it (genome.py), and the written text is judged like any other library-built index."""
@@ -671,6 +710,8 @@ def exec_op(ctx, op):
             out = op_intervals(ctx, op[1], op[2], op[3])
         elif kind == 'genome':
             out = op_genome(ctx, op[1])
+        elif kind == 'interleave':
+            out = op_interleave(ctx, op[1], op[2])
         else:
             raise ValueError(op)
     except OpenFailed as of:
@@ -693,6 +734,8 @@ def op_nontrivial(ctx, op, info):
         return ctx.rec(op[2])['multi_line']
     if kind == 'contigs-kept':
         return ctx.n >= 2
+    if kind == 'interleave':
+        return True
     if kind == 'intervals':
         return any(ctx.touches_break(i, a, b) for (i, a, b) in interval_list(ctx, op[3]))
     return False
@@ -729,6 +772,9 @@ def ops_for(ctx, level):
         if has_unterm:
             for path in sorted({p for p, _ in plan}):
                 yield ['intervals', s, path, 'all-terminated']
+        for i in range(ctx.n):
+            if ctx.rows[i][1] >= 2:
+                yield ['interleave', s, i]
         if level['rich']:
             yield ['genome', s]
     if level['singles']:
